@@ -27,7 +27,7 @@ theorem c20_disjoint (x : Input) : disjoint (modelObs x) = true := by
 
 /-- the side that is not mutated reports the original fields and serialises as before -/
 theorem c20_independent (x : Input) : independent x (modelObs x) = true := by
-  cases h : x.onClone <;> simp [independent, modelObs, pktClone, h]
+  cases h : x.onClone <;> simp [independent, modelObs, pktClone, hdrClone, h]
 
 /-- the main theorem, in the shape of the run-time check -/
 theorem c20_clone (x : Input) : pred x (modelObs x) = true := by
@@ -61,7 +61,7 @@ example : applyMut (.setExt 2 [9, 9]) ex ≠ ex := by decide
 example : applyMut (.delExt 1) ex ≠ ex := by decide
 example : pktMarshal (applyMut (.delExt 1) ex) ≠ pktMarshal ex := by decide
 example : (scenario ex (.delExt 1) false).1 ≠ (scenario ex (.delExt 1) false).2 := by decide
-example : (modelObs { p := ex, nils := { csrc := false, payload := false, exts := false, extPl := [false, false] },
+example : (modelObs { p := ex, po := 12, nils := { csrc := false, payload := false, exts := false, extPl := [false, false] },
                       mutn := .delExt 1, onClone := true }).otherMarshal = pktMarshal ex := rfl
 
 /-! ## Clone over an explicit heap (Rtp/Model/CloneMem.lean)
